@@ -325,7 +325,9 @@ impl Display for CreateTable {
             if let Some(file_format) = self.file_format {
                 write!(f, " STORED AS {file_format}")?;
             }
-            write!(f, " LOCATION '{}'", self.location.as_ref().unwrap())?;
+            if let Some(location) = &self.location {
+                write!(f, " LOCATION '{location}'")?;
+            }
         }
         if !self.table_properties.is_empty() {
             write!(
